@@ -22,7 +22,7 @@ pub fn run(o: &Opts) -> Report {
             // expected occurrences per arg, and the expected argv order of all stored values
             let mut exp: BTreeMap<String, Vec<Vec<Vec<u8>>>> = BTreeMap::new();
             let mut order: Vec<(String, Vec<u8>)> = vec![];
-            let multi_pos = cv.pos.last().map(|&i| cv.cmd.args[i].num_vals.is_some()).unwrap_or(false);
+            let multi_pos = cv.pos.last().map(|&i| is_multi(&cv.cmd.args[i])).unwrap_or(false);
             let mut pos_i = 0usize;
             for it in &inv.items {
                 match it {
